@@ -81,6 +81,15 @@ class C04(Prop):
                 fs.append([base[0], base[1], base[2], base[3], base[4], p])
             total = sum(10 + len(f[5]) for f in fs)
             cases.append({"kind": "xor-twins", "frames": fs, "chunks": chunking(rng, total) if rng.random() < 0.5 else None})
+        # frames of the maximum size (1000 bytes) and one below, for us, broadcast and for others, between ordinary frames
+        for _ in range(10 if tier == "quick" else 200):
+            fs = [self._frame(rng, kinds) for _ in range(rng.randrange(0, 3))]
+            big = list(self._frame(rng, kinds))
+            big[5] = list(G.rand_payload(rng, rng.choice([990, 990, 989]), dense68=rng.random() < 0.5))
+            fs.append(big)
+            fs += [self._frame(rng, kinds) for _ in range(rng.randrange(1, 3))]
+            total = sum(10 + len(f[5]) for f in fs)
+            cases.append({"kind": "max-size", "frames": fs, "chunks": chunking(rng, total) if rng.random() < 0.5 else None})
         # cuts exactly at every header/body boundary
         for _ in range(n // 6):
             fs = [self._frame(rng, kinds) for _ in range(rng.randrange(1, 4))]
